@@ -125,7 +125,7 @@ def check(ctx: Ctx) -> None:
     _check_axis_order(ctx)
     _check_falsy_zero(ctx)
     from ..idioms import check_index_sets_not_spans
-    check_index_sets_not_spans(ctx, 'C05.h', ['pyphysim/simulations/results.py', PAR, RUNNER], floor=3)
+    check_index_sets_not_spans(ctx, 'C05.h', ['pyphysim/simulations/results.py', PAR, RUNNER], floor=2)
 
 
 from ..idioms import falsy_zero_tests  # noqa: E402
